@@ -266,11 +266,21 @@ func TestVsim(t *testing.T) {
 				}
 				if runParams["crash_sweep"] != 0 {
 					// systematic leg: every crash kind x side x wire event of this seed's fault-free pass
+					// (base workloads with more than 512 wire events: every ceil(n/512)-th event, so that one base
+					// stays bounded; the stride is part of the declared sub-space)
 					nEv, _ := r1.Extra["wire_events"].(int)
-					cells, bad := 0, false
-					for kind := 0; kind < 7 && !bad; kind++ {
-						for side := 0; side < 2 && !bad; side++ {
-							for ev := 0; ev <= nEv && !bad; ev++ {
+					evStride := (nEv + 512) / 512
+					nPoints := nEv/evStride + 1
+					cells, bad, partial := 0, false, false
+					for kind := 0; kind < 7 && !bad && !partial; kind++ {
+						for side := 0; side < 2 && !bad && !partial; side++ {
+							for ev := 0; ev <= nEv && !bad; ev += evStride {
+								if *flagBudget > 0 && time.Since(start) > *flagBudget {
+									// out of wall-clock budget inside a base workload: its cells so far are reported as
+									// sampled runs, the base does not count as enumerated
+									partial = true
+									break
+								}
 								vsimProgress.Add(1)
 								p := copyParams(params)
 								p["crash_kind"], p["crash_side"], p["crash_ev"] = kind, side, ev
@@ -288,7 +298,7 @@ func TestVsim(t *testing.T) {
 									res.Extra = map[string]any{}
 								}
 								res.Extra["sweep_cell"] = 1
-								res.Extra["sweep_space_base"] = 14 * (nEv + 1)
+								res.Extra["sweep_space_base"] = 14 * nPoints
 								cells++
 								_ = enc.Encode(res)
 								if res.Violation != nil && *flagStop && ownsViolation(res.Violation.Prop) {
@@ -303,8 +313,8 @@ func TestVsim(t *testing.T) {
 							}
 						}
 					}
-					fmt.Fprintf(os.Stderr, "VSIM-SWEEP seed=%d cells=%d space=%d\n", seed, cells, 14*(nEv+1))
-					if bad {
+					fmt.Fprintf(os.Stderr, "VSIM-SWEEP seed=%d cells=%d space=%d partial=%v\n", seed, cells, 14*nPoints, partial)
+					if bad || partial {
 						break
 					}
 					seed += *flagStride
